@@ -1,1 +1,442 @@
+//! Workload attribute / metric / notifier types for the store- and track-level monitors (C09, C10, C11)
+//! and a sequential reference model of the store written from the property statements.
+use anyhow::{anyhow, Result};
+use similari::track::notify::ChangeNotifier;
+use similari::track::utils::FromVec;
+use similari::track::{
+    Feature, LookupRequest, MetricOutput, MetricQuery, Observation, ObservationAttributes, ObservationMetric,
+    ObservationsDb, Track, TrackAttributes, TrackAttributesUpdate, TrackStatus,
+};
+use std::collections::BTreeMap;
+use std::sync::atomic::{AtomicI64, AtomicU64, Ordering};
+use std::sync::Arc;
 
+/// Fault plan shared by all callbacks of one "side" (library side or model side).
+/// Every callback invocation takes a ticket; the invocation whose ticket equals `fail_at` fails
+/// (after having mutated its arguments, so that a missing rollback is visible).
+#[derive(Debug, Default)]
+pub struct FaultPlan {
+    pub calls: AtomicI64,
+    pub fail_at: AtomicI64,
+    pub paused: std::sync::atomic::AtomicBool,
+    pub log: std::sync::Mutex<Vec<&'static str>>,
+}
+impl FaultPlan {
+    pub fn new() -> Arc<FaultPlan> {
+        Arc::new(FaultPlan { calls: AtomicI64::new(0), fail_at: AtomicI64::new(-1), paused: Default::default(), log: Default::default() })
+    }
+    pub fn arm(&self, k: i64) {
+        self.calls.store(0, Ordering::SeqCst);
+        self.fail_at.store(k, Ordering::SeqCst);
+        self.log.lock().unwrap().clear();
+    }
+    pub fn disarm(&self) -> i64 {
+        self.fail_at.store(-1, Ordering::SeqCst);
+        self.calls.swap(0, Ordering::SeqCst)
+    }
+    fn ticket(&self, site: &'static str) -> bool {
+        if self.paused.load(Ordering::SeqCst) {
+            return false;
+        }
+        let t = self.calls.fetch_add(1, Ordering::SeqCst);
+        self.log.lock().unwrap().push(site);
+        t == self.fail_at.load(Ordering::SeqCst)
+    }
+}
+
+/// value that makes a callback fail deterministically (data-driven faults, used where a model must agree)
+pub const POISON: i64 = 666;
+
+#[derive(Clone, Debug)]
+pub struct WAttrs {
+    pub compat: u8,
+    pub counter: i64,
+    pub merges: u32,
+    pub optimized: u32,
+    /// the metric's internal state as seen by the last optimize call (makes the private metric state observable)
+    pub seen_metric_state: u32,
+    pub cap: usize,
+    pub plan: Arc<FaultPlan>,
+}
+impl PartialEq for WAttrs {
+    fn eq(&self, o: &Self) -> bool {
+        self.key() == o.key() && self.cap == o.cap
+    }
+}
+impl WAttrs {
+    pub fn new(compat: u8, cap: usize, plan: Arc<FaultPlan>) -> WAttrs {
+        WAttrs { compat, counter: 0, merges: 0, optimized: 0, seen_metric_state: 0, cap, plan }
+    }
+    pub fn status_code(&self) -> u8 {
+        // 0 pending, 1 ready, 2 wasted, 3 error
+        (self.counter.rem_euclid(4)) as u8
+    }
+    pub fn key(&self) -> (u8, i64, u32, u32, u32) {
+        (self.compat, self.counter, self.merges, self.optimized, self.seen_metric_state)
+    }
+}
+
+#[derive(Clone, Debug, PartialEq)]
+pub struct WUpdate {
+    pub delta: i64,
+    pub set_compat: Option<u8>,
+}
+impl TrackAttributesUpdate<WAttrs> for WUpdate {
+    fn apply(&self, attrs: &mut WAttrs) -> Result<()> {
+        attrs.counter += self.delta;
+        if let Some(c) = self.set_compat {
+            attrs.compat = c;
+        }
+        if self.delta == POISON || attrs.plan.ticket("update.apply") {
+            return Err(anyhow!("injected: update.apply"));
+        }
+        Ok(())
+    }
+}
+
+#[derive(Clone, Debug, PartialEq)]
+pub struct WObs(pub f32);
+impl ObservationAttributes for WObs {
+    type MetricObject = f32;
+    fn calculate_metric_object(l: &Option<&Self>, r: &Option<&Self>) -> Option<f32> {
+        match (l, r) {
+            (Some(a), Some(b)) => Some((a.0 - b.0).abs()),
+            _ => None,
+        }
+    }
+}
+
+#[derive(Clone, Debug)]
+pub enum WLookup {
+    CounterAtLeast(i64),
+    HistoryContains(u64),
+    HasClass(u64),
+}
+impl LookupRequest<WAttrs, WObs> for WLookup {
+    fn lookup(&self, attributes: &WAttrs, observations: &ObservationsDb<WObs>, merge_history: &[u64]) -> bool {
+        match self {
+            WLookup::CounterAtLeast(c) => attributes.counter >= *c,
+            WLookup::HistoryContains(id) => merge_history.contains(id),
+            WLookup::HasClass(c) => observations.contains_key(c),
+        }
+    }
+}
+pub fn lookup_model(q: &WLookup, t: &MTrack) -> bool {
+    match q {
+        WLookup::CounterAtLeast(c) => t.attrs.counter >= *c,
+        WLookup::HistoryContains(id) => t.history.contains(id),
+        WLookup::HasClass(c) => t.obs.contains_key(c),
+    }
+}
+
+impl TrackAttributes<WAttrs, WObs> for WAttrs {
+    type Update = WUpdate;
+    type Lookup = WLookup;
+    fn compatible(&self, other: &WAttrs) -> bool {
+        self.compat == other.compat
+    }
+    fn merge(&mut self, other: &WAttrs) -> Result<()> {
+        self.counter += other.counter;
+        self.merges += 1;
+        if other.merges as i64 == POISON || self.plan.ticket("attributes.merge") {
+            return Err(anyhow!("injected: attributes.merge"));
+        }
+        Ok(())
+    }
+    fn baked(&self, _observations: &ObservationsDb<WObs>) -> Result<TrackStatus> {
+        match self.status_code() {
+            0 => Ok(TrackStatus::Pending),
+            1 => Ok(TrackStatus::Ready),
+            2 => Ok(TrackStatus::Wasted),
+            _ => Err(anyhow!("status error")),
+        }
+    }
+}
+
+pub fn status_of(r: &Result<TrackStatus>) -> u8 {
+    match r {
+        Ok(TrackStatus::Pending) => 0,
+        Ok(TrackStatus::Ready) => 1,
+        Ok(TrackStatus::Wasted) => 2,
+        Err(_) => 3,
+    }
+}
+
+/// Metric with an internal state (the "metric state" of the property), reported through `metric()`.
+#[derive(Clone, Debug)]
+pub struct WMetric {
+    pub state: u32,
+    pub plan: Arc<FaultPlan>,
+}
+impl PartialEq for WMetric {
+    fn eq(&self, o: &Self) -> bool {
+        self.state == o.state
+    }
+}
+
+pub fn feat_first(f: &Option<Feature>) -> Option<Vec<f32>> {
+    f.as_ref().map(|x| Vec::from_vec(x))
+}
+
+impl ObservationMetric<WAttrs, WObs> for WMetric {
+    fn metric(&self, mq: &MetricQuery<'_, WAttrs, WObs>) -> MetricOutput<f32> {
+        let (c, t) = (mq.candidate_observation, mq.track_observation);
+        // no metric value when neither side carries anything comparable
+        let am = WObs::calculate_metric_object(&c.attr().as_ref(), &t.attr().as_ref());
+        let fd = match (c.feature(), t.feature()) {
+            (Some(x), Some(y)) => Some(similari::distance::euclidean(x, y) + self.state as f32 * 1000.0),
+            _ => None,
+        };
+        if am.is_none() && fd.is_none() {
+            None
+        } else {
+            Some((am, fd))
+        }
+    }
+    fn optimize(
+        &mut self,
+        _feature_class: u64,
+        _merge_history: &[u64],
+        attrs: &mut WAttrs,
+        observations: &mut Vec<Observation<WObs>>,
+        _prev_length: usize,
+        _is_merge: bool,
+    ) -> Result<()> {
+        // mutate everything first so that a missing rollback is observable, then (maybe) fail
+        let poisoned = observations.iter().any(|o| o.attr().as_ref().map(|a| a.0 == POISON as f32).unwrap_or(false));
+        observations.sort_by(|a, b| {
+            let qa = a.attr().as_ref().map(|x| x.0).unwrap_or(-1.0);
+            let qb = b.attr().as_ref().map(|x| x.0).unwrap_or(-1.0);
+            qb.partial_cmp(&qa).unwrap()
+        });
+        observations.truncate(attrs.cap);
+        attrs.optimized += 1;
+        attrs.seen_metric_state = self.state;
+        self.state += 1;
+        if poisoned || self.plan.ticket("metric.optimize") {
+            return Err(anyhow!("injected: metric.optimize"));
+        }
+        Ok(())
+    }
+}
+
+#[derive(Clone, Debug, Default)]
+pub struct CountingNotifier {
+    pub count: Arc<AtomicU64>,
+}
+impl ChangeNotifier for CountingNotifier {
+    fn send(&mut self, _id: u64) {
+        self.count.fetch_add(1, Ordering::SeqCst);
+    }
+}
+
+pub type WTrack = Track<WAttrs, WMetric, WObs, CountingNotifier>;
+
+/// one observation as plain data: (quality attribute, feature values)
+pub type ObsData = (Option<f32>, Option<Vec<f32>>);
+
+/// Plain-data snapshot of a track: everything the properties talk about.
+#[derive(Clone, Debug, PartialEq)]
+pub struct Snap {
+    pub id: u64,
+    pub attrs: (u8, i64, u32, u32, u32),
+    pub obs: BTreeMap<u64, Vec<ObsData>>,
+    pub history: Vec<u64>,
+    pub metric_state: u32,
+}
+
+pub fn obs_data(o: &Observation<WObs>) -> ObsData {
+    (o.attr().as_ref().map(|a| a.0), feat_first(o.feature()))
+}
+
+pub fn mk_feature(v: &[f32]) -> Feature {
+    Feature::from_vec(v.to_vec())
+}
+
+pub const PROBE_CLASS: u64 = u64::MAX;
+
+/// Read the (private) metric state of a track without a hook: run one benign observation on a *clone* with the
+/// fault plan paused; optimize copies the metric state it starts from into the attributes.
+pub fn probe_metric_state(t: &WTrack) -> u32 {
+    let plan = t.get_attributes().plan.clone();
+    let was = plan.paused.swap(true, Ordering::SeqCst);
+    let mut c = t.clone();
+    c.add_observation(PROBE_CLASS, Some(WObs(0.0)), None, None).expect("probe observation");
+    plan.paused.store(was, Ordering::SeqCst);
+    c.get_attributes().seen_metric_state
+}
+
+pub fn snap(t: &WTrack) -> Snap {
+    let mut obs = BTreeMap::new();
+    for c in t.get_feature_classes() {
+        obs.insert(c, t.get_observations(c).unwrap().iter().map(obs_data).collect());
+    }
+    Snap { id: t.get_track_id(), attrs: t.get_attributes().key(), obs, history: t.get_merge_history().clone(), metric_state: probe_metric_state(t) }
+}
+
+// ------------------------------------------------------------------------------------------------
+// sequential reference model
+
+#[derive(Clone, Debug, PartialEq)]
+pub struct MTrack {
+    pub id: u64,
+    pub attrs: WAttrs,
+    pub obs: BTreeMap<u64, Vec<ObsData>>,
+    pub metric: WMetric,
+    pub history: Vec<u64>,
+}
+
+fn to_obs(o: &ObsData) -> Observation<WObs> {
+    Observation::new(o.0.map(WObs), o.1.as_ref().map(|v| mk_feature(v)))
+}
+
+impl MTrack {
+    pub fn new(id: u64, attrs: WAttrs, metric: WMetric) -> MTrack {
+        MTrack { id, attrs, obs: BTreeMap::new(), metric, history: vec![id] }
+    }
+    pub fn snap(&self) -> Snap {
+        Snap { id: self.id, attrs: self.attrs.key(), obs: self.obs.clone(), history: self.history.clone(), metric_state: self.metric.state }
+    }
+    fn run_optimize(&mut self, cls: u64, hist: &[u64], prev_len: usize, is_merge: bool) -> Result<()> {
+        let mut v: Vec<Observation<WObs>> = self.obs[&cls].iter().map(to_obs).collect();
+        let r = self.metric.optimize(cls, hist, &mut self.attrs, &mut v, prev_len, is_merge);
+        self.obs.insert(cls, v.iter().map(obs_data).collect());
+        r
+    }
+    /// all-or-nothing composition of update.apply -> push -> optimize
+    pub fn add_observation(&mut self, cls: u64, oa: Option<f32>, feat: Option<Vec<f32>>, upd: Option<&WUpdate>) -> Result<()> {
+        let backup = self.clone();
+        if let Some(u) = upd {
+            if let Err(e) = u.apply(&mut self.attrs) {
+                *self = backup;
+                return Err(e);
+            }
+        }
+        if oa.is_none() && feat.is_none() {
+            return Ok(());
+        }
+        // features are stored zero-padded to a multiple of 8
+        let feat = feat.map(|v| Vec::from_vec(&mk_feature(&v)));
+        self.obs.entry(cls).or_default().push((oa, feat));
+        let prev = self.obs[&cls].len() - 1;
+        let hist = self.history.clone();
+        if let Err(e) = self.run_optimize(cls, &hist, prev, false) {
+            *self = backup;
+            return Err(e);
+        }
+        Ok(())
+    }
+    /// all-or-nothing merge; history = previous ++ source's, once, iff enabled and some requested class is
+    /// present in either track
+    pub fn merge(&mut self, other: &MTrack, classes: &[u64], merge_history: bool) -> Result<()> {
+        let backup = self.clone();
+        if let Err(e) = self.attrs.merge(&other.attrs) {
+            *self = backup;
+            return Err(e);
+        }
+        let new_hist: Vec<u64> = if merge_history { self.history.iter().chain(other.history.iter()).cloned().collect() } else { self.history.clone() };
+        let mut any = false;
+        for cls in classes {
+            let prev = match (self.obs.contains_key(cls), other.obs.get(cls)) {
+                (true, Some(src)) => {
+                    let p = self.obs[cls].len();
+                    self.obs.get_mut(cls).unwrap().extend(src.iter().cloned());
+                    Some(p)
+                }
+                (false, Some(src)) => {
+                    self.obs.insert(*cls, src.clone());
+                    Some(0)
+                }
+                (true, None) => Some(self.obs[cls].len()),
+                (false, None) => None,
+            };
+            if let Some(p) = prev {
+                any = true;
+                if let Err(e) = self.run_optimize(*cls, &new_hist, p, true) {
+                    *self = backup;
+                    return Err(e);
+                }
+            }
+        }
+        if any {
+            self.history = new_hist;
+        }
+        Ok(())
+    }
+}
+
+/// Sequential model of the store: a map id -> track.
+pub struct MStore {
+    pub tracks: BTreeMap<u64, MTrack>,
+    pub default_attrs: WAttrs,
+    pub metric: WMetric,
+}
+
+impl MStore {
+    pub fn new(default_attrs: WAttrs, metric: WMetric) -> MStore {
+        MStore { tracks: BTreeMap::new(), default_attrs, metric }
+    }
+    pub fn new_track(&self, id: u64) -> MTrack {
+        MTrack::new(id, self.default_attrs.clone(), self.metric.clone())
+    }
+    pub fn add_track(&mut self, t: MTrack) -> Result<u64, ()> {
+        if self.tracks.contains_key(&t.id) {
+            Err(())
+        } else {
+            let id = t.id;
+            self.tracks.insert(id, t);
+            Ok(id)
+        }
+    }
+    pub fn add(&mut self, id: u64, cls: u64, oa: Option<f32>, feat: Option<Vec<f32>>, upd: Option<&WUpdate>) -> Result<(), ()> {
+        match self.tracks.get_mut(&id) {
+            Some(t) => t.add_observation(cls, oa, feat, upd).map_err(|_| ()),
+            None => {
+                let mut t = self.new_track(id);
+                t.add_observation(cls, oa, feat, upd).map_err(|_| ())?;
+                self.tracks.insert(id, t);
+                Ok(())
+            }
+        }
+    }
+    pub fn fetch(&mut self, ids: &[u64]) -> Vec<MTrack> {
+        ids.iter().filter_map(|i| self.tracks.remove(i)).collect()
+    }
+    pub fn merge_external(&mut self, dest: u64, src: &MTrack, classes: Option<&[u64]>, hist: bool) -> Result<(), ()> {
+        if !self.tracks.contains_key(&dest) {
+            return Err(());
+        }
+        if dest == src.id {
+            return Err(());
+        }
+        let cl: Vec<u64> = match classes {
+            Some(c) if !c.is_empty() => c.to_vec(),
+            _ => src.obs.keys().cloned().collect(),
+        };
+        self.tracks.get_mut(&dest).unwrap().merge(src, &cl, hist).map_err(|_| ())
+    }
+    /// Ok(Some(src)) removed, Ok(None) kept
+    pub fn merge_owned(&mut self, dest: u64, src: u64, classes: Option<&[u64]>, remove: bool, hist: bool) -> Result<Option<MTrack>, ()> {
+        let s = match self.tracks.get(&src) {
+            Some(s) => s.clone(),
+            None => return Err(()),
+        };
+        if dest == src {
+            return Err(());
+        }
+        self.merge_external(dest, &s, classes, hist)?;
+        if remove {
+            self.tracks.remove(&src);
+            Ok(Some(s))
+        } else {
+            Ok(None)
+        }
+    }
+}
+
+/// Build the library-side track corresponding to a model track (same plain data) through the public API only.
+pub fn lib_attrs_like(m: &WAttrs, plan: Arc<FaultPlan>) -> WAttrs {
+    let mut a = m.clone();
+    a.plan = plan;
+    a
+}
